@@ -88,13 +88,19 @@ theorem hIdentity_ne_fuel (heap : Heap) (v : HVal) : hIdentity heap v ≠ .error
   · split <;> simp
   · split <;> simp
 
+theorem hUnstrIso_ne_fuel (c : Codecs) (v : HVal) : hUnstrIso c v ≠ .error .fuel := by
+  unfold hUnstrIso
+  split <;> simp
+
 theorem hUnstrLeaf_ne_fuel (c : Codecs) (heap : Heap) (l : Leaf) (v : HVal) : hUnstrLeaf c heap l v ≠ .error .fuel := by
   unfold hUnstrLeaf
   split
   · exact hIdentity_ne_fuel heap v
   · split
     · split <;> simp
-    · split <;> simp
+    · exact hUnstrIso_ne_fuel c v
+    · exact hUnstrIso_ne_fuel c v
+    · exact hUnstrIso_ne_fuel c v
     · split <;> simp
     · exact hIdentity_ne_fuel heap v
 
@@ -222,6 +228,8 @@ theorem unstr_static_ev (c : Codecs) (heap : Heap) (decls : Decls) (v : HVal) (h
     | bytearray b => exact eventually_succ _ _ (unstr_static_ev c heap decls _ hk t') (fun n reg h => by simp only [hUnstr]; exact h)
     | datetime b => exact eventually_succ _ _ (unstr_static_ev c heap decls _ hk t') (fun n reg h => by simp only [hUnstr]; exact h)
     | date b => exact eventually_succ _ _ (unstr_static_ev c heap decls _ hk t') (fun n reg h => by simp only [hUnstr]; exact h)
+    | time b => exact eventually_succ _ _ (unstr_static_ev c heap decls _ hk t') (fun n reg h => by simp only [hUnstr]; exact h)
+    | uuid b => exact eventually_succ _ _ (unstr_static_ev c heap decls _ hk t') (fun n reg h => by simp only [hUnstr]; exact h)
     | enum cl b => exact eventually_succ _ _ (unstr_static_ev c heap decls _ hk t') (fun n reg h => by simp only [hUnstr]; exact h)
     | «opaque» k b => exact eventually_succ _ _ (unstr_static_ev c heap decls _ hk t') (fun n reg h => by simp only [hUnstr]; exact h)
   | .list t' => by
@@ -439,6 +447,15 @@ theorem hIdentity_leaks (rank : Nat → Nat) (heap : Heap) (v : HVal) (p : PV) (
       intro i hi; rw [immediatePV_leaks _ _ hq] at hi; cases hi
     · cases h
 
+theorem hUnstrIso_leaks (c : Codecs) (rank : Nat → Nat) (v : HVal) (p : PV)
+    (h : hUnstrIso c v = .ok p) : LeakBound rank (rankV rank v) p := by
+  unfold hUnstrIso at h
+  split at h
+  · cases h; intro i hi; simp [PV.leaks] at hi
+  · cases h; intro i hi; simp [PV.leaks] at hi
+  · cases h; intro i hi; simp [PV.leaks] at hi
+  · cases h
+
 theorem hUnstrLeaf_leaks (c : Codecs) (rank : Nat → Nat) (heap : Heap) (l : Leaf) (v : HVal) (p : PV)
     (h : hUnstrLeaf c heap l v = .ok p) : LeakBound rank (rankV rank v) p := by
   unfold hUnstrLeaf at h
@@ -448,11 +465,13 @@ theorem hUnstrLeaf_leaks (c : Codecs) (rank : Nat → Nat) (heap : Heap) (l : Le
     · split at h
       · cases h; intro i hi; simp [PV.leaks] at hi
       · cases h
+    · exact hUnstrIso_leaks c rank v p h
+    · exact hUnstrIso_leaks c rank v p h
+    · exact hUnstrIso_leaks c rank v p h
     · split at h
       · cases h; intro i hi; simp [PV.leaks] at hi
       · cases h; intro i hi; simp [PV.leaks] at hi
-      · cases h
-    · split at h
+      · cases h; intro i hi; simp [PV.leaks] at hi
       · cases h; intro i hi; simp [PV.leaks] at hi
       · cases h; intro i hi; simp [PV.leaks] at hi
       · cases h
@@ -698,6 +717,8 @@ theorem serF_ev_imm (c : Codecs) (heap : Heap) (decls : Decls) (rank : Nat → N
   | bytes b => exact helse (fun n reg => by simp only [serF]; rfl)
   | datetime b => exact helse (fun n reg => by simp only [serF]; rfl)
   | date b => exact helse (fun n reg => by simp only [serF]; rfl)
+  | time b => exact helse (fun n reg => by simp only [serF]; rfl)
+  | uuid b => exact helse (fun n reg => by simp only [serF]; rfl)
   | «opaque» k b => exact helse (fun n reg => by simp only [serF]; rfl)
 
 /-- `DataclassSerializer.serialize` terminates on every value of an acyclic heap. -/
@@ -811,6 +832,8 @@ theorem serF_ev_of_ranked (c : Codecs) (heap : Heap) (decls : Decls) (rank : Nat
     | bytes b => exact serF_ev_imm c heap decls rank hr _ rfl visited
     | datetime b => exact serF_ev_imm c heap decls rank hr _ rfl visited
     | date b => exact serF_ev_imm c heap decls rank hr _ rfl visited
+    | time b => exact serF_ev_imm c heap decls rank hr _ rfl visited
+    | uuid b => exact serF_ev_imm c heap decls rank hr _ rfl visited
     | «opaque» k b => exact serF_ev_imm c heap decls rank hr _ rfl visited
 
 end Pog
